@@ -10,7 +10,7 @@ use std::sync::{Arc, Mutex};
 use std::time::Duration;
 
 pub fn run_async(ctl: &Arc<Controller>, plan: &PlanTuple, port: u16, active: &std::sync::atomic::AtomicUsize) -> Option<(String, String, usize, bool)> {
-    let (max_size, min_idle, idle_ms, senders, sends, schedule) = plan.clone();
+    let (max_size, min_idle, idle_ms, senders, sends, schedule, timeout_ms) = plan.clone();
     let nshut = schedule.iter().filter(|t| t.starts_with('x')).map(|t| t[1..].parse::<usize>().unwrap_or(0) + 1).max().unwrap_or(0);
     let rt = tokio::runtime::Builder::new_multi_thread().worker_threads(senders + nshut + 4).enable_all().build().ok()?;
     ctl_register(ctl, "m");
@@ -19,7 +19,7 @@ pub fn run_async(ctl: &Arc<Controller>, plan: &PlanTuple, port: u16, active: &st
         let _g = rt.enter();
         AsyncSmtpTransport::<Tokio1Executor>::builder_dangerous("127.0.0.1")
             .port(port)
-            .timeout(Some(Duration::from_secs(5)))
+            .timeout(Some(Duration::from_millis(timeout_ms)))
             .pool_config(PoolConfig::new().max_size(max_size).min_idle(min_idle).idle_timeout(Duration::from_millis(idle_ms)))
             .build()
     };
@@ -67,7 +67,7 @@ pub fn run_async(ctl: &Arc<Controller>, plan: &PlanTuple, port: u16, active: &st
     // Pool::drop closes the parked connections in a spawned task
     let t0 = std::time::Instant::now();
     std::thread::sleep(Duration::from_millis(5));
-    while complete && active.load(std::sync::atomic::Ordering::SeqCst) > 0 && t0.elapsed() < Duration::from_millis(1500) {
+    while complete && active.load(std::sync::atomic::Ordering::SeqCst) > 0 && t0.elapsed() < Duration::from_millis(8000) {
         std::thread::sleep(Duration::from_millis(2));
     }
     rt.shutdown_timeout(Duration::from_millis(300));
